@@ -90,6 +90,11 @@ type Client struct {
 
 	// existence of scopes to read, write
 	canRead, canWrite bool
+
+	// internal is set for the relay's own stats reporter: it only reads commands
+	// from its queue, so when the queue is full the command is dropped and the
+	// client stays registered (a websocket reader in that state is disconnected)
+	internal bool
 }
 
 //RxTx represents statistics for both receive and transmit
@@ -531,7 +536,9 @@ func (h *Hub) run() {
 					case client.send <- message:
 					default:
 						// cannot send on h.unregister here: this loop is its only receiver
-						slow = append(slow, client)
+						if !client.internal {
+							slow = append(slow, client)
+						}
 					}
 				}
 			}
@@ -801,6 +808,7 @@ func statsClient(closed <-chan struct{}, wg *sync.WaitGroup, config Config) {
 		canRead:    true,
 		canWrite:   true,
 		scopes:     []string{"read", "stats", "write"},
+		internal:   true,
 	}
 	client.hub.register <- client
 
